@@ -313,11 +313,64 @@ func (c *Ctx) ruleVisibility(id string, d *dstate, min int) {
 							}
 						}
 					}
+					if !guarded {
+						// read out of the result of a package function that hands out added entries only
+						// (retained(pattern): appends an entry to its result only under IsEntryAdded(entry))
+						guarded = containerReaches(val, func(x ssa.Value) bool {
+							cv, ok := x.(*ssa.Call)
+							if !ok {
+								return false
+							}
+							g := cv.Call.StaticCallee()
+							return g != nil && g.Package() == d.pkg && c.returnsOnlyAdded(d, g)
+						})
+					}
 					ru.Check(guarded, key, c.whereI(in), "under IsEntryAdded(entry)", "an entry reaches a query result without passing IsEntryAdded on that very entry: removed (or never added) entries are listed")
 				}
 			}
 		}
 	}
+}
+
+// returnsOnlyAdded: every slice of entries g returns is accumulated, in g, with appends only, each of them made under
+// IsEntryAdded(that element) == true.
+func (c *Ctx) returnsOnlyAdded(d *dstate, g *ssa.Function) bool {
+	if len(g.Blocks) == 0 {
+		return false
+	}
+	n := 0
+	for _, b := range g.Blocks {
+		r, ok := b.Instrs[len(b.Instrs)-1].(*ssa.Return)
+		if !ok {
+			continue
+		}
+		for _, rv := range r.Results {
+			sl, isSlice := rv.Type().Underlying().(*types.Slice)
+			if !isSlice || !d.isEntryType(sl.Elem()) {
+				continue
+			}
+			if k, isConst := rv.(*ssa.Const); isConst && k.IsNil() {
+				continue
+			}
+			elems, from, _, ok := sliceSources(rv)
+			if !ok {
+				return false
+			}
+			for i, e := range elems {
+				guarded := false
+				for _, cc := range controllingConds(from[i].Block(), nil) {
+					if cv, isCall := cc.cond.(*ssa.Call); isCall && core.CallOf(cv).Is(d.isAdded) && cc.pol && sameEntry(cv.Call.Args[0], e) {
+						guarded = true
+					}
+				}
+				if !guarded {
+					return false
+				}
+				n++
+			}
+		}
+	}
+	return n > 0
 }
 
 func isZeroEntry(v ssa.Value) bool {
